@@ -115,7 +115,7 @@ def features(case):
 def style_fn(c):
     import hashlib, json as _j
     h = int(hashlib.md5(_j.dumps(c['doc'], sort_keys=True).encode()).hexdigest(), 16)
-    if h % 3 == 1 and mapcase.yarrrml_ok(c):
+    if (h % 3 == 1 or c.get('spelling') == 'yarrrml') and mapcase.yarrrml_ok(c):
         return mapcase.Style(vocab='yarrrml')        # YARRRML-star: quoted / quotedNonAsserted
     return mapcase.Style(vocab='legacy') if h % 3 == 0 else None
 
@@ -126,6 +126,14 @@ def run(ctx, res):
                 'partitioning modes; implementation against the Engine model and the Spec; distinct = distinct case; non-trivial = at least one RDF-star statement prescribed')
     cases = [c for c in (gen_star_case(ctx.rng) for _ in range(ctx.scale(160, 4000))) if expansion_size(c) <= 40]
     # a third of the cases that YARRRML can express is written in YARRRML; a third of the cases is written in the legacy RML vocabulary (its own quotedTriplesMap / NonAssertedTriplesMap / subjectMap terms)
+    # directed: a NON-ASSERTED quoted triples map with several predicate-object maps, always written in YARRRML (quotedNonAsserted)
+    found, tries = 0, 0
+    while found < ctx.scale(8, 60) and tries < 4000:
+        tries += 1
+        g = gen_star_case(ctx.rng)
+        if expansion_size(g) <= 40 and mapcase.yarrrml_ok(g) and any(t.get('nonasserted') and len(t.get('poms', [])) >= 2 for t in g['doc']) and not family.triggers(g):
+            g['spelling'] = 'yarrrml'
+            cases.append(g); found += 1
     family.run_family(ctx, res, cases, features, style_fn=style_fn)
 
 
